@@ -451,4 +451,49 @@ theorem strip_runProgram (X : Nat → Bool) {a b : List In} (h : CancelVariant X
   unfold runProgram
   rw [strip_advance, strip_advance, strip_foldl X h s s rfl]
 
+
+/-! ### a call for a remembered key adds nothing outside its own caller (C11) -/
+
+theorem CancelVariant.refl (X : Nat → Bool) : ∀ l : List In, CancelVariant X l l
+  | [] => .nil
+  | i :: r => .same i (CancelVariant.refl X r)
+
+/-- A call whose key is remembered (pending, or inside its retention window) is, for everybody but the
+caller itself, the same as letting that instant pass. -/
+theorem strip_call_hit (X : Nat → Bool) (s : St) (t c arg key : Nat) (hx : X c = true)
+    (hhit : ((arrive s t).retention.find? (·.1 == key)).isSome = true) :
+    strip X (applyIn s (.call t c arg key)) = strip X (arrive s t) := by
+  rw [applyIn_eq]
+  show strip X (stepIn (arrive s t) (.call t c arg key)) = _
+  generalize arrive s t = s1 at hhit
+  unfold stepIn
+  simp only []
+  cases hf : s1.retention.find? (·.1 == key) with
+  | none => rw [hf] at hhit; simp at hhit
+  | some kf =>
+    obtain ⟨k', f⟩ := kf
+    simp only []
+    split
+    · unfold strip
+      simp only [St.mk.injEq, true_and, and_true]
+      rw [List.filter_append]
+      simp [keepOut, hx]
+    · unfold strip
+      simp only [St.mk.injEq, true_and, and_true]
+      rw [List.filter_append]
+      simp [hx]
+
+/-- Run level: inserting, anywhere in a program, a call by caller `c` for a key that is remembered at that
+moment changes nothing for anybody else — same batches, same answers at the same instants — compared
+with the program in which `c` does nothing there (a cancellation of `c` is a no-op for the others). -/
+theorem strip_sharer (X : Nat → Bool) (s0 : St) (a b : List In) (t c arg key : Nat) (hx : X c = true)
+    (hhit : ((arrive (a.foldl applyIn s0) t).retention.find? (·.1 == key)).isSome = true) :
+    strip X (runProgram s0 (a ++ [In.call t c arg key] ++ b)) = strip X (runProgram s0 (a ++ [In.cancel t c] ++ b)) := by
+  unfold runProgram
+  rw [strip_advance, strip_advance]
+  congr 1
+  simp only [List.foldl_append, List.foldl_cons, List.foldl_nil]
+  apply strip_foldl X (CancelVariant.refl X b)
+  rw [strip_call_hit X _ t c arg key hx hhit, strip_cancel X _ t c hx]
+
 end AiutiVerif.Batcher
